@@ -952,6 +952,11 @@ def VExecModel(world: World, proc: VProc, backend: str = "thread"):
             def start(self, func, args=()) -> None:
                 w = self.world
                 w.point("start")
+                sf = w.opts.get("start_faults")
+                if sf and (sf is True or sf is self.proc) and w.env_choice(2, "start-fails") == 1:
+                    # environment fault: the OS / the interpreter refuses another thread
+                    w.log("start-fails", getattr(func, "__name__", "t"))
+                    raise RuntimeError("can't start new thread")
                 w.spawn(func, args, proc=self.proc, name=getattr(func, "__name__", "t"))
 
             def start_nondaemon(self, func, args=()) -> None:
